@@ -857,7 +857,9 @@ func (p *Proxy) registerConnection(player *connectedPlayer) bool {
 
 retry:
 	p.muP.Lock()
-	if c.OnlineModeKickExistingPlayers {
+	// Same condition as in canRegisterConnection:
+	// existing players are only kicked in online mode.
+	if c.OnlineMode && c.OnlineModeKickExistingPlayers {
 		existing, ok := p.playerIDs[player.ID()]
 		if ok {
 			// Make sure we disconnect existing duplicate
@@ -880,10 +882,12 @@ retry:
 	} else {
 		_, exists := p.playerNames[lowerName]
 		if exists {
+			p.muP.Unlock()
 			return false
 		}
 		_, exists = p.playerIDs[player.ID()]
 		if exists {
+			p.muP.Unlock()
 			return false
 		}
 	}
@@ -896,10 +900,17 @@ retry:
 
 // unregisters a connected player
 func (p *Proxy) unregisterConnection(player *connectedPlayer) (found bool) {
+	lowerName := strings.ToLower(player.Username())
 	p.muP.Lock()
-	_, found = p.playerIDs[player.ID()]
-	delete(p.playerNames, strings.ToLower(player.Username()))
-	delete(p.playerIDs, player.ID())
+	// Only remove the entries that belong to this very connection: a rejected
+	// duplicate login shares the name and/or id of the player that stays registered.
+	if p.playerIDs[player.ID()] == player {
+		found = true
+		delete(p.playerIDs, player.ID())
+	}
+	if p.playerNames[lowerName] == player {
+		delete(p.playerNames, lowerName)
+	}
 	empty := len(p.playerIDs) == 0
 	p.muP.Unlock()
 	if empty {
